@@ -8,55 +8,55 @@
  * (assumed representation invariant, clause by clause below).                                    */
 
 //@ text
-typedef struct { int id; int n; } gobj;                               /* MultiIndexSet / StorageSet / CustomTabulated: identity, number of entries */
-typedef struct { int id; size_t len; size_t strips; int last; } gvec;  /* std::vector / Data2D: identity, length, strips, value of the last entry */
+typedef struct { int id; int n; int maxidx; } gobj;                   /* MultiIndexSet / StorageSet / CustomTabulated: identity, number of entries, largest index (getMaxIndex) */
+typedef struct { int id; size_t len; size_t strips; int last; int maxv; } gvec;  /* std::vector / Data2D: identity, length, strips, value of the last entry, largest entry */
 enum { T_NUM = 1, T_RULE, T_FLAG, T_OBJ, T_VEC };
 #define TAPE_MAX 40
-typedef struct { int kind; double num; int id; size_t len; size_t strips; int last; int n; } token;
+typedef struct { int kind; double num; int id; size_t len; size_t strips; int last; int n; int mx; } token;
 token tape[TAPE_MAX]; int tape_w, tape_r;
 token tape2[TAPE_MAX]; int tape2_w;
 static void tape_push(token t){ __CPROVER_assert(tape_w < TAPE_MAX, "shim: token tape capacity suffices"); tape[tape_w++] = t; }
 static token tape_pop(int kind){
-  token t = {0, 0.0, 0, 0, 0, 0, 0};
+  token t = {0, 0.0, 0, 0, 0, 0, 0, 0};
   __CPROVER_assert(tape_r < tape_w, "C06 the reader does not read past what the writer produced");
   if (tape_r < tape_w) { t = tape[tape_r++]; __CPROVER_assert(t.kind == kind, "C06 the reader expects the kind of datum that was written at this position"); }
   return t;
 }
-void tape_write_num(double v){ token t = {T_NUM, v, 0, 0, 0, 0, 0}; tape_push(t); }
-void tape_write_rule(int r){ token t = {T_RULE, (double) r, 0, 0, 0, 0, 0}; tape_push(t); }
-void tape_write_flag(bool f){ token t = {T_FLAG, f ? 1.0 : 0.0, 0, 0, 0, 0, 0}; tape_push(t); }
-void tape_write_obj(gobj o){ token t = {T_OBJ, 0.0, o.id, 0, 0, 0, o.n}; tape_push(t); }
-void tape_write_vec(gvec v){ if (v.len == 0) return; token t = {T_VEC, 0.0, v.id, v.len, v.strips, v.last, 0}; tape_push(t); }   /* an empty vector occupies no data */
+void tape_write_num(double v){ token t = {T_NUM, v, 0, 0, 0, 0, 0, 0}; tape_push(t); }
+void tape_write_rule(int r){ token t = {T_RULE, (double) r, 0, 0, 0, 0, 0, 0}; tape_push(t); }
+void tape_write_flag(bool f){ token t = {T_FLAG, f ? 1.0 : 0.0, 0, 0, 0, 0, 0, 0}; tape_push(t); }
+void tape_write_obj(gobj o){ token t = {T_OBJ, 0.0, o.id, 0, 0, 0, o.n, o.maxidx}; tape_push(t); }
+void tape_write_vec(gvec v){ if (v.len == 0) return; token t = {T_VEC, 0.0, v.id, v.len, v.strips, v.last, 0, v.maxv}; tape_push(t); }   /* an empty vector occupies no data */
 double tape_read_num(void){ return tape_pop(T_NUM).num; }
 int    tape_read_rule(void){ return (int) tape_pop(T_RULE).num; }
 bool   tape_read_flag(void){ return tape_pop(T_FLAG).num != 0.0; }
-gobj   tape_read_obj(void){ token t = tape_pop(T_OBJ); gobj o = {t.id, t.n}; return o; }
+gobj   tape_read_obj(void){ token t = tape_pop(T_OBJ); gobj o = {t.id, t.n, t.mx}; return o; }
 gvec   tape_read_vec(size_t n){
-  gvec v = {0, 0, 0, 0};
+  gvec v = {0, 0, 0, 0, 0};
   if (n == 0) return v;
   token t = tape_pop(T_VEC);
   __CPROVER_assert(t.len == n, "C06 the reader computes the length that was written");
-  v.id = t.id; v.len = t.len; v.strips = t.strips; v.last = t.last; return v;
+  v.id = t.id; v.len = t.len; v.strips = t.strips; v.last = t.last; v.maxv = t.mx; return v;
 }
-gvec gvec_sized(size_t n){ gvec v = {0, n, 0, 0}; return v; }
-static bool obj_eq(gobj a, gobj b){ return a.n == b.n && (a.n == 0 || a.id == b.id); }
-static bool vec_eq(gvec a, gvec b){ return a.len == b.len && (a.len == 0 || (a.id == b.id && a.last == b.last)); }
-static gobj obj_sym(void){ gobj o; o.id = nondet_int(); o.n = nondet_int(); __CPROVER_assume(o.n >= 0 && o.n <= 1000 && o.id > 0); return o; }
-static gvec vec_sym(void){ gvec v; v.id = nondet_int(); v.len = nondet_size_t(); v.strips = nondet_size_t(); v.last = nondet_int(); __CPROVER_assume(v.len <= 100000 && v.strips <= 100000 && v.id > 0); return v; }
-static gobj obj_none(void){ gobj o = {0, 0}; return o; }
-static gvec vec_none(void){ gvec v = {0, 0, 0, 0}; return v; }
+gvec gvec_sized(size_t n){ gvec v = {0, n, 0, 0, 0}; return v; }
+static bool obj_eq(gobj a, gobj b){ return a.n == b.n && (a.n == 0 || (a.id == b.id && a.maxidx == b.maxidx)); }
+static bool vec_eq(gvec a, gvec b){ return a.len == b.len && (a.len == 0 || (a.id == b.id && a.last == b.last && a.maxv == b.maxv)); }
+static gobj obj_sym(void){ gobj o; o.id = nondet_int(); o.n = nondet_int(); o.maxidx = nondet_int(); __CPROVER_assume(o.n >= 0 && o.n <= 1000 && o.id > 0 && o.maxidx >= 0 && o.maxidx < 1000); return o; }
+static gvec vec_sym(void){ gvec v; v.id = nondet_int(); v.len = nondet_size_t(); v.strips = nondet_size_t(); v.last = nondet_int(); v.maxv = nondet_int(); __CPROVER_assume(v.maxv >= 0 && v.maxv < 1000 && v.len <= 100000 && v.strips <= 100000 && v.id > 0); return v; }
+static gobj obj_none(void){ gobj o = {0, 0, 0}; return o; }
+static gvec vec_none(void){ gvec v = {0, 0, 0, 0, 0}; return v; }
 
 typedef struct { int num_dimensions, num_outputs; TypeOneDRule rule; gobj points, needed, values; gvec surpluses; } GSequence;
 typedef struct { int num_dimensions, num_outputs; double alpha, beta; TypeOneDRule rule; gobj custom, tensors, active_tensors, points, needed, values, updated_tensors, updated_active_tensors;
-                 gvec active_w, max_levels, updated_active_w; } GGlobal;
+                 gvec active_w, max_levels, updated_active_w; int wrapper_levels; } GGlobal;
 typedef struct { int num_dimensions, num_outputs, order, top_level; int effective_rule; gobj points, needed, values; gvec surpluses, parents, roots, pntr, indx; } GLocalPolynomial;
 typedef struct { int num_dimensions, num_outputs, order; gobj points, needed, values; gvec coefficients; } GWavelet;
-typedef struct { int num_dimensions, num_outputs; gobj tensors, active_tensors, points, needed, values, updated_tensors, updated_active_tensors; gvec active_w, max_levels, updated_active_w, fourier_coefs; } GFourier;
+typedef struct { int num_dimensions, num_outputs; gobj tensors, active_tensors, points, needed, values, updated_tensors, updated_active_tensors; gvec active_w, max_levels, updated_active_w, fourier_coefs; int wrapper_levels; } GFourier;
 
 #define DIMS_OUTS(g) do{ (g).num_dimensions = nondet_int(); (g).num_outputs = nondet_int(); __CPROVER_assume((g).num_dimensions >= 1 && (g).num_dimensions <= 20 && (g).num_outputs >= 0 && (g).num_outputs <= 20); }while(0)
 #define SAVE_TAPE() do{ for (int k_ = 0; k_ < TAPE_MAX; k_++) tape2[k_] = tape[k_]; tape2_w = tape_w; tape_w = 0; tape_r = 0; }while(0)
 #define SAME_TAPE() do{ __CPROVER_assert(tape_w == tape2_w, "C06 writing the restored grid produces as many tokens as the original"); \
-  for (int k_ = 0; k_ < TAPE_MAX; k_++) if (k_ < tape_w) __CPROVER_assert(tape[k_].kind == tape2[k_].kind && TSG_SAME(tape[k_].num, tape2[k_].num) && tape[k_].id == tape2[k_].id && tape[k_].len == tape2[k_].len && tape[k_].n == tape2[k_].n && tape[k_].last == tape2[k_].last, \
+  for (int k_ = 0; k_ < TAPE_MAX; k_++) if (k_ < tape_w) __CPROVER_assert(tape[k_].kind == tape2[k_].kind && TSG_SAME(tape[k_].num, tape2[k_].num) && tape[k_].id == tape2[k_].id && tape[k_].len == tape2[k_].len && tape[k_].n == tape2[k_].n && tape[k_].last == tape2[k_].last && tape[k_].mx == tape2[k_].mx, \
       "C06 writing the restored grid reproduces the original token sequence"); }while(0)
 
 //@ harness h_Sequence
@@ -95,10 +95,15 @@ void h_Global(void){
   if (g.updated_tensors.n == 0) { g.updated_active_tensors = obj_none(); g.updated_active_w = vec_none(); }
   __CPROVER_assume(g.updated_active_w.len == (size_t) g.updated_active_tensors.n);
   if (g.num_outputs == 0) g.values = obj_none();
+  /* well_formed: max_levels = getMaxIndexes(tensors) or of the active tensors, which contain the maximal elements: its largest entry is the largest tensor index */
+  __CPROVER_assume(g.max_levels.maxv == g.tensors.maxidx);
+  /* well_formed: a pending tensor set contains the current tensors (established by the job iotape.wellformed.update.*) */
+  __CPROVER_assume(g.updated_tensors.n == 0 || g.updated_tensors.maxidx >= g.tensors.maxidx);
   tape_w = 0; tape_r = 0;
   WRITE(&g);
   r.custom = obj_none(); r.tensors = obj_none(); r.active_tensors = obj_none(); r.points = obj_none(); r.needed = obj_none(); r.values = obj_none();
   r.updated_tensors = obj_none(); r.updated_active_tensors = obj_none(); r.active_w = vec_none(); r.max_levels = vec_none(); r.updated_active_w = vec_none();
+  r.wrapper_levels = -1;
   READ(&r);
   __CPROVER_assert(tape_r == tape_w, "C06 the reader consumes exactly what the writer produced");
   __CPROVER_assert(r.num_dimensions == g.num_dimensions && r.num_outputs == g.num_outputs && r.rule == g.rule && TSG_SAME(r.alpha, g.alpha) && TSG_SAME(r.beta, g.beta), "C06 Global: meta data (dimensions, outputs, rule, alpha, beta) restored");
@@ -108,7 +113,8 @@ void h_Global(void){
   __CPROVER_assert(vec_eq(r.max_levels, g.max_levels), "C06 Global: max levels restored");
   __CPROVER_assert(obj_eq(r.values, g.values), "C06 Global: values restored");
   __CPROVER_assert(obj_eq(r.updated_tensors, g.updated_tensors) && obj_eq(r.updated_active_tensors, g.updated_active_tensors) && vec_eq(r.updated_active_w, g.updated_active_w), "C06 Global: pending refinement (updated tensors) restored");
-  SAVE_TAPE(); WRITE(&r); SAME_TAPE();
+    __CPROVER_assert(r.wrapper_levels >= g.tensors.maxidx && (g.updated_tensors.n == 0 || r.wrapper_levels >= g.updated_tensors.maxidx), "C06 Global: the 1-D rule cache rebuilt by the reader covers every level of the tensors and of the pending refinement (later operations behave as on the original)");
+SAVE_TAPE(); WRITE(&r); SAME_TAPE();
   __CPROVER_assert(0, "VACUITY-CANARY");
 }
 
@@ -176,10 +182,15 @@ void h_Fourier(void){
   __CPROVER_assume(g.updated_active_w.len == (size_t) g.updated_active_tensors.n);
   if (g.num_outputs == 0) { g.values = obj_none(); g.fourier_coefs = vec_none(); }
   __CPROVER_assume(g.fourier_coefs.strips == (g.fourier_coefs.len == 0 ? 0 : 2 * (size_t) g.points.n) && (g.fourier_coefs.len == 0 || g.fourier_coefs.len == (size_t) g.num_outputs * 2 * (size_t) g.points.n));
+  /* well_formed: max_levels = getMaxIndexes(tensors) or of the active tensors, which contain the maximal elements: its largest entry is the largest tensor index */
+  __CPROVER_assume(g.max_levels.maxv == g.tensors.maxidx);
+  /* well_formed: a pending tensor set contains the current tensors (established by the job iotape.wellformed.update.*) */
+  __CPROVER_assume(g.updated_tensors.n == 0 || g.updated_tensors.maxidx >= g.tensors.maxidx);
   tape_w = 0; tape_r = 0;
   WRITE(&g);
   r.tensors = obj_none(); r.active_tensors = obj_none(); r.points = obj_none(); r.needed = obj_none(); r.values = obj_none();
   r.updated_tensors = obj_none(); r.updated_active_tensors = obj_none(); r.active_w = vec_none(); r.max_levels = vec_none(); r.updated_active_w = vec_none(); r.fourier_coefs = vec_none();
+  r.wrapper_levels = -1;
   READ(&r);
   __CPROVER_assert(tape_r == tape_w, "C06 the reader consumes exactly what the writer produced");
   __CPROVER_assert(r.num_dimensions == g.num_dimensions && r.num_outputs == g.num_outputs, "C06 Fourier: dimensions and outputs restored");
@@ -188,6 +199,27 @@ void h_Fourier(void){
   __CPROVER_assert(vec_eq(r.max_levels, g.max_levels), "C06 Fourier: max levels restored");
   __CPROVER_assert(obj_eq(r.values, g.values) && vec_eq(r.fourier_coefs, g.fourier_coefs), "C06 Fourier: values and Fourier coefficients restored");
   __CPROVER_assert(obj_eq(r.updated_tensors, g.updated_tensors) && obj_eq(r.updated_active_tensors, g.updated_active_tensors) && vec_eq(r.updated_active_w, g.updated_active_w), "C06 Fourier: pending refinement (updated tensors) restored");
-  SAVE_TAPE(); WRITE(&r); SAME_TAPE();
+    __CPROVER_assert(r.wrapper_levels >= g.tensors.maxidx && (g.updated_tensors.n == 0 || r.wrapper_levels >= g.updated_tensors.maxidx), "C06 Fourier: the 1-D rule cache rebuilt by the reader covers every level of the tensors and of the pending refinement (later operations behave as on the original)");
+SAVE_TAPE(); WRITE(&r); SAME_TAPE();
+  __CPROVER_assert(0, "VACUITY-CANARY");
+}
+
+//@ text2
+/* ghost index set for the invariant of the pending refinement: is it empty, does it contain the current tensors */
+typedef struct { bool empty; bool sup; } gset;
+typedef struct { int num_outputs; bool points_empty; gset updated_tensors; } GU;
+static gset gset_none(void){ gset s = {true, false}; return s; }
+static gset gset_selected(void){ gset s = {false, nondet_bool()}; return s; }           /* selectTensors: a non-empty set, any relation to the current tensors */
+static gset gset_minus_tensors(gset a){ gset s = {nondet_bool(), false}; if (a.empty) s.empty = true; return s; }
+static gset gset_plus_tensors(gset a){ gset s = {false, true}; return s; }
+void fam_makeGrid(GU *self){ self->updated_tensors = gset_none(); }                       /* a fresh grid has no pending refinement (makeGrid ends in setTensors, which resets it) */
+void fam_clearRefinement(GU *self){ self->updated_tensors = gset_none(); }
+void fam_proposeUpdatedTensors(GU *self){ }
+
+//@ harness h_update_invariant
+void h_update_invariant(void){
+  GU g; g.num_outputs = nondet_int(); g.points_empty = nondet_bool(); g.updated_tensors.empty = nondet_bool(); g.updated_tensors.sup = nondet_bool();
+  UPDATE(&g);
+  __CPROVER_assert(g.updated_tensors.empty || g.updated_tensors.sup, "C06 well_formed: after updateGrid the pending tensor set is empty or contains the current tensors (what write() stores as a pending refinement is one)");
   __CPROVER_assert(0, "VACUITY-CANARY");
 }
